@@ -168,6 +168,8 @@ func (t *Teamserver) ListenerRemove(Name string) ([]*Listener, []packager.Packag
 
 			t.Listeners = append(t.Listeners[:i], t.Listeners[i+1:]...)
 
+			t.EventsMtx.Lock()
+			defer t.EventsMtx.Unlock()
 			for EventID := range t.EventsList {
 				if t.EventsList[EventID].Head.Event == packager.Type.Listener.Type {
 					if t.EventsList[EventID].Body.SubEvent == packager.Type.Listener.Add {
